@@ -1,5 +1,8 @@
-(* C18: syscall traces of `knut format` judged by the extracted safe_trace (Model/AtomicFS.v;
-   Properties/C18.v C18_safe), fault-injection outcomes compared with the extracted protocol *)
+(* C18: syscall traces of `knut format` / `knut infer --inplace` judged by the extracted safe_trace
+   (Model/AtomicFS.v; Properties/C18.v C18_safe), fault-injection outcomes compared with the extracted
+   protocol.  cmd=infer with two files: the first is the training file, which the command only reads
+   (a path of no job in C18_interleaving_any_dir): it must end old, no operation may touch it, and it
+   has no part in the exit status. *)
 open Drv_util
 
 let rec n_of_int (n : int) : K.n = if n = 0 then K.N0 else K.Npos (pos_of_int n)
@@ -66,6 +69,8 @@ let judge (inp : string) (obs : string) : string * string =
   let mode = get ikv "mode" in
   let limit = (try int_of_string (get ikv "limit") with _ -> 0) in
   let files = pairs (String.split_on_char '|' (get ikv "files")) in
+  let readonly name =
+    get ikv "cmd" = "infer" && List.length files >= 2 && name = fst (List.hd files) in
   let sep = (try Str.search_forward (Str.regexp_string " ## ") obs 0 with Not_found -> String.length obs) in
   let head = String.sub obs 0 sep in
   let det = if sep + 4 <= String.length obs then String.sub obs (sep + 4) (String.length obs - sep - 4) else "" in
@@ -96,7 +101,8 @@ let judge (inp : string) (obs : string) : string * string =
       (name, class_name (K.target_class tgt oldb newb tr))) files in
   let all_fit = List.for_all (fun (name, _) ->
     let (parses, nw, _) = (try List.assoc name details with Not_found -> (false, "", [])) in
-    parses && mode <> "rodir" && String.length name < 250 && not (mode = "rlimit" && String.length nw > limit)) files in
+    readonly name ||
+    (parses && mode <> "rodir" && String.length name < 250 && not (mode = "rlimit" && String.length nw > limit))) files in
   let model = Printf.sprintf "exit=%s left=0 finals=%s" (if all_fit then "0" else "1")
       (String.concat "," (List.map (fun (n, c) -> n ^ ":" ^ c) expected)) in
   (* the property on the implementation's behaviour *)
@@ -104,9 +110,11 @@ let judge (inp : string) (obs : string) : string * string =
     let (parses, nw, ops) = (try List.assoc name details with Not_found -> (false, "", [])) in
     let final = (try List.assoc name finals with Not_found -> "missing") in
     if final <> "old" && final <> "new" then fail (Printf.sprintf "%s:%s" name final);
-    if not parses && final <> "old" then fail (name ^ ":unparseable-file-changed");
+    if readonly name && final <> "old" then fail (name ^ ":training-file-changed")
+    else if not parses && final <> "old" then fail (name ^ ":unparseable-file-changed");
     if mode = "strace" then begin
-      if not parses then (if ops <> [] then fail (name ^ ":ops-on-unparseable-file"))
+      if readonly name then (if ops <> [] then fail (name ^ ":ops-on-training-file"))
+      else if not parses then (if ops <> [] then fail (name ^ ":ops-on-unparseable-file"))
       else begin
         let oldb = bytes_of_string old and newb = bytes_of_string nw in
         let tr = List.map parse_op ops in
